@@ -3,6 +3,7 @@ import Rustemo.Proofs.GlrTop
 import Rustemo.Proofs.GlrLayout
 import Rustemo.Proofs.GlrEnum
 import Rustemo.Proofs.GlrExample
+import Rustemo.Proofs.GlrCompleteDefs
 /-!
 # C03 — the GLR forest contains exactly the derivation trees of the input
 
@@ -130,6 +131,58 @@ theorem C03_engine_no_panic_certified (env : Env) (hcert : Cert.glr env.g env.t 
     (hlay : Cert.glrLayout env.g env.t = true) (partialParse : Bool) (fuel : Nat) :
     ∀ site, Glr.parse env partialParse fuel ≠ .panic site :=
   Glr.parse_no_panic env hcert (layoutSafe_of_cert env hcert hlay) partialParse fuel
+
+/-! ### (d) completeness and (c) no duplicates: full statements, and the part that is proved -/
+
+/-- **(d) Completeness of the engine, full statement** (NOT proved as a whole).  For a table passing `Cert.glr`
+    and the completeness certificate `Cert.completeRN` (lookahead post-fixpoint: closure and transitions as in
+    `Cert.complete`; EVERY right-nulled reduction present for each lookahead of its item; at most one shift per
+    cell), under the token-level lexer hypothesis `LexDet`: if the token kinds are a sentence, the engine does not
+    report an error, and every forest it returns contains every derivation tree of the sentence modulo elision
+    (`Tree.EqElide`). -/
+def C03_engine_complete_statement : Prop :=
+  ∀ (env : Env), Cert.glr env.g env.t = true → Cert.completeRN env.g env.t = true →
+  ∀ (partialParse : Bool) (fuel n : Nat) (tok : Nat → Tok) (P L : Nat → Pos),
+    LexDet env partialParse fuel n tok P L →
+  ∀ (full : Tree), full.Valid env.g env.g.startIdx → full.yield = (List.range n).map (fun i => (tok i).kind) →
+    (∀ e, Glr.parse env partialParse fuel ≠ .err e) ∧
+    ∀ r, Glr.parse env partialParse fuel = .ok r → ∃ i tr, r.getTree i = some tr ∧ Tree.EqElide full tr
+
+/-- **(c) No duplicates, full statement** (NOT proved): two different indices never give the same tree modulo
+    elision. -/
+def C03_engine_no_duplicates_statement : Prop :=
+  ∀ (env : Env), Cert.glr env.g env.t = true → Cert.completeRN env.g env.t = true →
+  ∀ (partialParse : Bool) (fuel : Nat) (r : GlrResult), Glr.parse env partialParse fuel = .ok r →
+  ∀ (i j : Nat) (ti tj : Tree), r.getTree i = some ti → r.getTree j = some tj → Tree.EqElide ti tj → i = j
+
+/-- **(d), the part that is proved: reduction closure of the GSS** (Scott–Johnstone's key lemma for RNGLR, for
+    THIS implementation: FIFO queue, breadth-first path search on the graph as it is when the reduction is
+    processed, re-queueing only over a NEW edge, the fold of a solution into a prefix-comparable one).
+    One run of the reducer over a sub-frontier (`reducerLoop`, level `F`, lookahead kind `a`) on a certified table,
+    started in a state that satisfies the engine invariant `RInv`, the uniqueness invariants `UInv` (one edge per
+    pair of heads, one head per state in the sub-frontier, level-internal edges inside the sub-frontier), with
+    every queued reduction starting in the sub-frontier (`QSub`) and every chain covered or pending (`RCInv`).
+    When the loop ends (`ok`, any fuel) the queue is empty and EVERY chain is COVERED: for every root head `u`
+    whose state holds the initial item `[A → . α, a]`, every chain of parent links from `u` spelling a prefix
+    `α[0..l)` up to a head of the sub-frontier, with `α[l..]` nullable from the first head of level `F` on and
+    the goto state alive on `a`, the edge from the head for `goto(state u, A)` down to `u` carries a possibility of
+    that production whose children list is prefix-comparable with the chain.  No reduction path is lost,
+    whatever the order in which heads and edges appeared.  This is the statement the fold defect F25, a missing
+    re-queue (mutation iii-a) or missing right-nulled table entries (seeded c-C03, excluded by
+    `Cert.completeRN`) would violate. -/
+theorem C03_engine_reduction_closure (env : Env) (hcert : Cert.glr env.g env.t = true)
+    (hcomp : Cert.completeRN env.g env.t = true) (F a fuel : Nat) (rs rs' : RState)
+    (hI : RInv env F rs) (hU : UInv F a rs.gss rs.sub) (hq : QSub rs) (hrc : RCInv env F a rs)
+    (h : reducerLoop env fuel rs = .ok rs') :
+    RInv env F rs' ∧ UInv F a rs'.gss rs'.sub ∧ rs'.queue = [] ∧
+    ∀ (u p : Nat) (pr : Prod) (P : List Nat) (s' : Nat), KChain env F a rs'.gss rs'.sub u p pr P s' →
+      Covered rs' u p P s' := by
+  obtain ⟨hC, hW⟩ := Cert.completeRN_sound _ _ hcomp
+  obtain ⟨k1, _, k3, k4, k5⟩ := reducerLoop_closure (tableOk_of_cert env hcert) hC hW fuel rs rs' hI hU hq hrc h
+  exact ⟨k1, k3, k4, k5⟩
+
+/-- non-vacuity of the certificates of the closure theorem: the real LALR_RN table of the example grammar -/
+example : Cert.completeRN Glr.Example.g Glr.Example.t = true := by decide +kernel
 
 /-- non-vacuity: the certificate holds of the table the real compiler builds for the right-nullable ambiguous
     grammar `S: 'a' S A | EMPTY; A: 'a' | EMPTY` (right-nulled reductions `reduce 1 1`, `reduce 1 2`) … -/
